@@ -71,7 +71,7 @@ package sql
 //@   ensures (result1 == nil ==> result0 != nil && ghost.dtx == 1) && (result1 != nil ==> ghost.dtx == old(ghost.dtx))
 //@ iface (driver.Conn).Begin
 //@   modifies ghost.dtx
-//@   ensures (result1 == nil ==> result0 != nil && ghost.dtx == 1) && (result1 != nil ==> ghost.dtx == old(ghost.dtx))
+//@   ensures (result1 == nil ==> result0 != nil && ghost.dtx == 1) && (result1 != nil ==> result0 == nil && ghost.dtx == old(ghost.dtx))
 //@ ext seata.apache.org/seata-go/pkg/datasource/sql/datasource.GetDataSourceManager
 //@   ensures result != nil
 //@ iface (datasource.DataSourceManager).BranchRegister
@@ -153,7 +153,14 @@ package sql
 //@   ensures_on_panic ghost.f_calls == old(ghost.f_calls) + 1 && !ghost.f_ok
 
 //@ func (*ATConn).createNewTxOnExecIfNeed
-//@   prop C02
+//@   prop C02 C16
+//@   let cv16 := ctxvalue(ctx, tm.seataContextVariable)
+//@   let global16 := cv16 != nil && cv16.(*tm.ContextVariable).Xid != ""
+//@   ensures C16/plain-outside-a-global-tx: !global16 && called("callback:f#1") && ghost.f_ok ==> ghost.f_calls == 1 && result1 == nil && result0 == callres("callback:f#1", 0) && ghost.dtx == old(ghost.dtx) && ghost.registers == 0 && ghost.reports == 0
+//@   ensures C16/failure-outside-is-the-statements-failure: !global16 && ghost.f_calls == 1 && !ghost.f_ok ==> result1 != nil && ghost.dtx == old(ghost.dtx) && ghost.registers == 0 && ghost.reports == 0
+//@   ensures C16/statement-always-runs-outside: !global16 ==> ghost.f_calls == 1
+//@   let auto02 := c.Conn.autoCommit
+//@   ensures autocommit-mode-restored: auto02 && ghost.dtx != 1 ==> c.Conn.autoCommit
 //@   requires forall(i, 0, len(txHooks), txHooks[i] != nil)
 //@   modifies c.Conn.txCtx, c.Conn.autoCommit, ghost.dtx, ghost.f_calls, ghost.f_ok, ghost.registers, ghost.reg_ok, ghost.flushes, ghost.flush_ok, ghost.reports, ghost.report_acked, ghost.reported_failed, ghost.reported_done, ghost.ctx_done
 //@   requires c != nil && c.Conn != nil && c.Conn.txCtx != nil && c.Conn.res != nil && c.Conn.targetConn != nil
@@ -442,3 +449,124 @@ package sql
 //@   modifies ghost.all
 //@   ensures committed-means-queued: result0 == branch.BranchStatusPhasetwoCommitted ==> chanlen(a.worker.commitQueue) == q0 + 1 && result1 == nil
 //@   ensures not-queued-is-not-committed: chanlen(a.worker.commitQueue) == q0 ==> result0 != branch.BranchStatusPhasetwoCommitted
+
+// ---------------------------------------------------------------------------------------------
+// C16: the pass-through layer. Outside a global transaction a statement reaches the target driver
+// once, with the caller's context, text and arguments, and the target's result or error comes back
+// unchanged. The target driver and the executor chain behind the exec.SQLExecutor interface are
+// the environment here (the chain itself is under contract in pkg/datasource/sql/exec/at).
+//@ ghost var target_calls int
+//@ iface (driver.ExecerContext).ExecContext
+//@   modifies ghost.target_calls
+//@   ensures ghost.target_calls == old(ghost.target_calls) + 1
+//@ iface (driver.QueryerContext).QueryContext
+//@   modifies ghost.target_calls
+//@   ensures ghost.target_calls == old(ghost.target_calls) + 1
+//@ iface (driver.StmtExecContext).ExecContext
+//@   modifies ghost.target_calls
+//@   ensures ghost.target_calls == old(ghost.target_calls) + 1
+//@ iface (driver.StmtQueryContext).QueryContext
+//@   modifies ghost.target_calls
+//@   ensures ghost.target_calls == old(ghost.target_calls) + 1
+//@ iface (driver.Stmt).Query
+//@   modifies ghost.target_calls
+//@   ensures ghost.target_calls == old(ghost.target_calls) + 1
+
+//@ func (*Conn).ExecContext
+//@   prop C16
+//@   requires c != nil && c.targetConn != nil && implements(c.targetConn, driver.ExecerContext) && ghost.target_calls == 0
+//@   modifies ghost.target_calls
+//@   ensures reaches-the-target-once: ghost.target_calls == 1 && called("ExecContext#1")
+//@   ensures same-error: callres("ExecContext#1", 1) != nil ==> result1 == callres("ExecContext#1", 1) && result0 == nil
+//@   ensures same-result: callres("ExecContext#1", 1) == nil && callres("ExecContext#1", 0) != nil ==> result1 == nil && result0 == callres("ExecContext#1", 0)
+//@   at call ExecContext#1: assert same-statement: arg_ctx == ctx && arg_query == query && arg_args == args
+//@   may_panic
+
+//@ func (*Conn).QueryContext
+//@   prop C16
+//@   requires c != nil && c.targetConn != nil && implements(c.targetConn, driver.QueryerContext) && ghost.target_calls == 0
+//@   modifies ghost.target_calls
+//@   ensures reaches-the-target-once: ghost.target_calls == 1 && called("QueryContext#1")
+//@   ensures same-error: callres("QueryContext#1", 1) != nil ==> result1 == callres("QueryContext#1", 1) && result0 == nil
+//@   ensures same-rows: callres("QueryContext#1", 1) == nil && callres("QueryContext#1", 0) != nil ==> result1 == nil && result0 == callres("QueryContext#1", 0)
+//@   at call QueryContext#1: assert same-statement: arg_ctx == ctx && arg_query == query && arg_args == args
+//@   may_panic
+
+// prepared statements: the executor chain behind exec.SQLExecutor is the environment here; what the
+// proxy hands to it, and what the closure it passes does with the target statement, is checked.
+//@ iface (exec.SQLExecutor).ExecWithNamedValue
+//@   ensures result1 == nil ==> result0 != nil
+//@ iface (exec.SQLExecutor).ExecWithValue
+//@   ensures result1 == nil ==> result0 != nil
+//@ iface (types.ExecResult).GetRows
+//@   ensures result == ufval("execresult.rows", self)
+//@ iface (types.ExecResult).GetResult
+//@   ensures result == ufval("execresult.result", self)
+
+//@ func (*Stmt).QueryContext
+//@   prop C16
+//@   requires s != nil && s.stmt != nil && s.res != nil && s.txCtx != nil && ctx != nil
+//@   modifies heap.all, ghost.all
+//@   ensures unsupported-is-skipped: !implements(s.stmt, driver.StmtQueryContext) ==> result1 == driver.ErrSkip && !called("BuildExecutor#1")
+//@   ensures same-error: called("ExecWithNamedValue#1") && callres("ExecWithNamedValue#1", 1) != nil ==> result1 == callres("ExecWithNamedValue#1", 1) && result0 == nil
+//@   ensures same-rows: called("ExecWithNamedValue#1") && callres("ExecWithNamedValue#1", 1) == nil && callres("ExecWithNamedValue#1", 0) != nil ==> result1 == nil && result0 == ufval("execresult.rows", callres("ExecWithNamedValue#1", 0))
+//@   at call ExecWithNamedValue#1: assert hands-over-the-callers-statement: arg_ctx == ctx && arg_execCtx != nil && arg_execCtx.Query == s.query && arg_execCtx.NamedValues == args && arg_execCtx.TxCtx == s.txCtx
+//@   may_panic
+
+//@ func (*Stmt).QueryContext$1
+//@   prop C16
+//@   requires stmt != nil && ghost.target_calls == 0
+//@   modifies ghost.target_calls
+//@   ensures reaches-the-target-once: ghost.target_calls == 1 && called("QueryContext#1")
+//@   ensures same-error: callres("QueryContext#1", 1) != nil ==> result1 == callres("QueryContext#1", 1) && result0 == nil
+//@   ensures same-rows: callres("QueryContext#1", 1) == nil && callres("QueryContext#1", 0) != nil ==> result1 == nil && isT(result0, *types.queryResult) && result0.(*types.queryResult).Rows == callres("QueryContext#1", 0)
+//@   at call QueryContext#1: assert same-arguments: arg_ctx == ctx && arg_args == args
+//@   may_panic
+
+//@ func (*Stmt).ExecContext
+//@   prop C16
+//@   requires s != nil && s.stmt != nil && s.res != nil && s.txCtx != nil && ctx != nil
+//@   modifies heap.all, ghost.all
+//@   ensures unsupported-is-skipped: !implements(s.stmt, driver.StmtExecContext) ==> result1 == driver.ErrSkip && !called("BuildExecutor#1")
+//@   ensures same-error: called("ExecWithNamedValue#1") && callres("ExecWithNamedValue#1", 1) != nil ==> result1 == callres("ExecWithNamedValue#1", 1) && result0 == nil
+//@   ensures same-result: called("ExecWithNamedValue#1") && callres("ExecWithNamedValue#1", 1) == nil && callres("ExecWithNamedValue#1", 0) != nil ==> result1 == nil && result0 == ufval("execresult.result", callres("ExecWithNamedValue#1", 0))
+//@   at call ExecWithNamedValue#1: assert hands-over-the-callers-statement: arg_ctx == ctx && arg_execCtx != nil && arg_execCtx.Query == s.query && arg_execCtx.NamedValues == args && arg_execCtx.TxCtx == s.txCtx
+//@   may_panic
+
+//@ func (*Stmt).ExecContext$1
+//@   prop C16
+//@   requires stmt != nil && ghost.target_calls == 0
+//@   modifies ghost.target_calls
+//@   ensures reaches-the-target-once: ghost.target_calls == 1 && called("ExecContext#1")
+//@   ensures same-error: callres("ExecContext#1", 1) != nil ==> result1 == callres("ExecContext#1", 1) && result0 == nil
+//@   ensures same-result: callres("ExecContext#1", 1) == nil && callres("ExecContext#1", 0) != nil ==> result1 == nil && isT(result0, *types.writeResult) && result0.(*types.writeResult).Result == callres("ExecContext#1", 0)
+//@   at call ExecContext#1: assert same-arguments: arg_ctx == ctx && arg_args == args
+//@   may_panic
+
+//@ func (*Stmt).Exec
+//@   prop C16
+//@   requires s != nil && s.stmt != nil && s.res != nil && s.txCtx != nil
+//@   modifies heap.all, ghost.all
+//@   ensures same-error: called("ExecWithValue#1") && callres("ExecWithValue#1", 1) != nil ==> result1 == callres("ExecWithValue#1", 1) && result0 == nil
+//@   ensures same-result: called("ExecWithValue#1") && callres("ExecWithValue#1", 1) == nil && callres("ExecWithValue#1", 0) != nil ==> result1 == nil && result0 == ufval("execresult.result", callres("ExecWithValue#1", 0))
+//@   at call ExecWithValue#1: assert hands-over-the-callers-statement: arg_execCtx != nil && arg_execCtx.Query == s.query && arg_execCtx.Values == args && arg_execCtx.TxCtx == s.txCtx
+//@   may_panic
+
+//@ func (*ATConn).ExecContext$2
+//@   prop C16
+//@   requires c != nil && c.Conn != nil && c.Conn.txCtx != nil && c.Conn.res != nil && c.Conn.targetConn != nil && ctx != nil
+//@   modifies heap.all, ghost.all
+//@   ensures builder-error-surfaces: called("BuildExecutor#1") && callres("BuildExecutor#1", 1) != nil ==> result1 == callres("BuildExecutor#1", 1) && !called("ExecWithNamedValue#1")
+//@   ensures same-outcome: called("ExecWithNamedValue#1") ==> result0 == callres("ExecWithNamedValue#1", 0) && result1 == callres("ExecWithNamedValue#1", 1)
+//@   at call ExecWithNamedValue#1: assert hands-over-the-callers-statement: arg_ctx == ctx && arg_execCtx != nil && arg_execCtx.Query == query && arg_execCtx.NamedValues == args && arg_execCtx.Conn == c.Conn.targetConn && arg_execCtx.TxCtx == c.Conn.txCtx
+//@   at call BuildExecutor#1: assert mode-of-this-connection: arg_transactionMode == c.Conn.txCtx.TransactionMode && arg_query == query
+//@   may_panic
+
+//@ func (*ATConn).QueryContext$2
+//@   prop C16
+//@   requires c != nil && c.Conn != nil && c.Conn.txCtx != nil && c.Conn.res != nil && c.Conn.targetConn != nil && ctx != nil
+//@   modifies heap.all, ghost.all
+//@   ensures builder-error-surfaces: called("BuildExecutor#1") && callres("BuildExecutor#1", 1) != nil ==> result1 == callres("BuildExecutor#1", 1) && !called("ExecWithNamedValue#1")
+//@   ensures same-outcome: called("ExecWithNamedValue#1") ==> result0 == callres("ExecWithNamedValue#1", 0) && result1 == callres("ExecWithNamedValue#1", 1)
+//@   at call ExecWithNamedValue#1: assert hands-over-the-callers-statement: arg_ctx == ctx && arg_execCtx != nil && arg_execCtx.Query == query && arg_execCtx.NamedValues == args && arg_execCtx.Conn == c.Conn.targetConn && arg_execCtx.TxCtx == c.Conn.txCtx
+//@   may_panic
